@@ -464,7 +464,7 @@ func (c *FnCtx) checkWrite(env *Env, lhs ast.Expr, loc *Loc) {
 	root := env.rootTerm(loc.Root, lhs.Pos())
 	cur := root
 	inMod := env.rootInModifies(lhs)
-	_, isParam := c.paramSet()[loc.Root]
+	_, isParam := c.paramSet()[c.resolveAlias(loc.Root)]
 	if loc.NilCond != "false" {
 		env.safe("safe:nil-deref", lhs.Pos(), not(loc.NilCond), "pointer is non-nil")
 	}
